@@ -108,6 +108,10 @@ class Ctx:
                 self.cov["samples"].append(it)
 
     def write_evidence(self, level="model_checking"):
+        global EVID
+        if REPO != "/repo":
+            # mutation experiment (VERIF_REPO): never clobber the committed evidence of the real tree
+            EVID = os.path.join(tempfile.gettempdir(), "verif-evidence-mut")
         os.makedirs(EVID, exist_ok=True)
         cov = dict(self.cov)
         if not cov["samples"]:
